@@ -923,3 +923,263 @@ def b_vsscanf(ex, st, args, ins):
             if not _eq_byte(ex, st, b, ch): return assigned if assigned else (ops.mask(32) if _is_zero(ex, st, b) else 0)
             p += 1; i += 1
     return assigned
+
+# ------------------------------------------------------------------------------------ pthread model (POSIX contract)
+# mutex object memory layout is ours: word0 = owner tid+1 (0 free), word1 = recursion count, word2 = type (1 recursive)
+PTHREAD_MUTEX_RECURSIVE = 1
+
+def _mtx(st, a): return (st.mem.load(a, 4), st.mem.load(a + 4, 4), st.mem.load(a + 8, 4))
+
+@builtin('pthread_mutexattr_init')
+def b_mattr_init(ex, st, args, ins): st.mem.store(args[0], 4, 0); return 0
+@builtin('pthread_mutexattr_settype')
+def b_mattr_settype(ex, st, args, ins): st.mem.store(args[0], 4, args[1] & 0xffffffff); return 0
+@builtin('pthread_mutexattr_destroy', 'pthread_condattr_init', 'pthread_condattr_destroy', 'pthread_condattr_setclock')
+def b_attr_nop(ex, st, args, ins): return 0
+
+@builtin('pthread_mutex_init')
+def b_mutex_init(ex, st, args, ins):
+    m, attr = args
+    ty = 0
+    if attr: ty = st.mem.load(attr, 4)
+    st.mem.store(m, 4, 0); st.mem.store(m + 4, 4, 0); st.mem.store(m + 8, 4, ty)
+    return 0
+@builtin('pthread_mutex_destroy')
+def b_mutex_destroy(ex, st, args, ins):
+    owner, cnt, ty = _mtx(st, args[0])
+    if owner: raise MemError('pthread', 'pthread_mutex_destroy of a locked mutex')
+    return 0
+
+def _mutex_try(ex, st, m, tid):
+    owner, cnt, ty = _mtx(st, m)
+    if owner == 0:
+        st.mem.store(m, 4, tid + 1); st.mem.store(m + 4, 4, 1); return True
+    if owner == tid + 1 and ty == PTHREAD_MUTEX_RECURSIVE:
+        st.mem.store(m + 4, 4, cnt + 1); return True
+    return False
+
+@builtin('pthread_mutex_lock')
+def b_mutex_lock(ex, st, args, ins):
+    m = args[0]; th = st.threads[st.cur]
+    if _mutex_try(ex, st, m, th.tid): return 0
+    owner, cnt, ty = _mtx(st, m)
+    if owner == th.tid + 1:
+        raise MemError('deadlock', 'thread locks a non-recursive mutex it already owns')
+    th.status = 'blocked'
+    th.wait = lambda ex_, st_, t_, m=m: st_.mem.load(m, 4) == 0
+    raise Blocked()
+
+@builtin('pthread_mutex_trylock')
+def b_mutex_trylock(ex, st, args, ins):
+    return 0 if _mutex_try(ex, st, args[0], st.threads[st.cur].tid) else 16   # EBUSY
+
+@builtin('pthread_mutex_unlock')
+def b_mutex_unlock(ex, st, args, ins):
+    m = args[0]; th = st.threads[st.cur]
+    owner, cnt, ty = _mtx(st, m)
+    if owner != th.tid + 1: raise MemError('pthread', 'pthread_mutex_unlock by a thread that does not own the mutex')
+    if cnt > 1: st.mem.store(m + 4, 4, cnt - 1)
+    else:
+        st.mem.store(m, 4, 0); st.mem.store(m + 4, 4, 0)
+    return 0
+
+@builtin('__errno_location')
+def b_errno(ex, st, args, ins):
+    a = st.ghost.get('errno_addr')
+    if a is None:
+        o = st.mem.alloc(4, 'global', 'errno'); st.mem.store(o.base, 4, 0); a = o.base; st.ghost['errno_addr'] = a
+    return a
+
+def _wake_reason(st, tid):
+    w = st.ghost.get('wake', {})
+    if tid in w:
+        w = dict(w); r = w.pop(tid); st.ghost['wake'] = w; return r
+    return None
+
+def _clock(st): return st.ghost.get('clock_ns', 1000000000000)
+def _ts_ns(st, p): return st.mem.load(p, 8) * 1000000000 + st.mem.load(p + 8, 8)
+
+@builtin('clock_gettime')
+def b_clock_gettime(ex, st, args, ins):
+    t = _clock(st)
+    st.mem.store(args[1], 8, t // 1000000000); st.mem.store(args[1] + 8, 8, t % 1000000000)
+    return 0
+@builtin('gettimeofday')
+def b_gettimeofday(ex, st, args, ins):
+    t = _clock(st)
+    st.mem.store(args[0], 8, t // 1000000000); st.mem.store(args[0] + 8, 8, (t % 1000000000) // 1000)
+    return 0
+@builtin('usleep', 'nanosleep', 'sched_yield', 'pthread_yield', 'sleep')
+def b_sleep(ex, st, args, ins):
+    return 0
+
+# condition variables: waiters live in engine-side ghost state  cond_waiters[addr] = (tid, ...)
+def _waiters(st, c): return st.ghost.get('cond_waiters', {}).get(c, ())
+def _set_waiters(st, c, ws):
+    d = dict(st.ghost.get('cond_waiters', {})); d[c] = tuple(ws); st.ghost['cond_waiters'] = d
+
+@builtin('pthread_cond_init')
+def b_cond_init(ex, st, args, ins):
+    st.mem.store(args[0], 4, 0); _set_waiters(st, args[0], ()); return 0
+@builtin('pthread_cond_destroy')
+def b_cond_destroy(ex, st, args, ins):
+    if _waiters(st, args[0]): raise MemError('pthread', 'pthread_cond_destroy with waiting threads')
+    return 0
+
+def _cond_wait(ex, st, c, m, deadline_ns):
+    th = st.threads[st.cur]; tid = th.tid
+    phases = st.ghost.get('cw_phase', {})
+    ph = phases.get(tid)
+    if ph is None:
+        owner, cnt, ty = _mtx(st, m)
+        if owner != tid + 1: raise MemError('pthread', 'pthread_cond_wait without owning the mutex')
+        if cnt != 1: raise MemError('pthread', 'pthread_cond_wait with a recursively locked mutex (would stay locked)')
+        st.mem.store(m, 4, 0); st.mem.store(m + 4, 4, 0)
+        _set_waiters(st, c, _waiters(st, c) + (tid,))
+        p2 = dict(phases); p2[tid] = ('waiting', c, m); st.ghost['cw_phase'] = p2
+        th.status = 'blocked'
+        timed = deadline_ns is not None
+        def w(ex_, st_, t_, c=c, tid=tid, timed=timed):
+            if tid not in _waiters(st_, c): return True
+            return 'timeout' if timed else 'spurious'
+        th.wait = w
+        raise Blocked()
+    # woken up (signalled, spuriously, or by the deadline): re-acquire the mutex, then return
+    if ph[0] == 'waiting':
+        reason = _wake_reason(st, tid)
+        res = 0
+        if tid in _waiters(st, c):
+            _set_waiters(st, c, [x for x in _waiters(st, c) if x != tid])
+            if reason == 'timeout':
+                res = 110  # ETIMEDOUT: only ever reported once the clock has reached the deadline
+                st.ghost['clock_ns'] = max(_clock(st), deadline_ns)
+        p2 = dict(st.ghost.get('cw_phase', {})); p2[tid] = ('relock', c, m, res); st.ghost['cw_phase'] = p2
+        ph = p2[tid]
+    if not _mutex_try(ex, st, m, tid):
+        th.status = 'blocked'
+        th.wait = lambda ex_, st_, t_, m=m: st_.mem.load(m, 4) == 0
+        raise Blocked()
+    p2 = dict(st.ghost.get('cw_phase', {})); res = p2.pop(tid)[3]; st.ghost['cw_phase'] = p2
+    return res
+
+@builtin('pthread_cond_wait')
+def b_cond_wait(ex, st, args, ins): return _cond_wait(ex, st, args[0], args[1], None)
+@builtin('pthread_cond_timedwait')
+def b_cond_timedwait(ex, st, args, ins):
+    ts = args[2]
+    nsec = st.mem.load(ts + 8, 8)
+    if not isinstance(nsec, int) or nsec >= 1000000000: raise MemError('pthread', 'pthread_cond_timedwait: tv_nsec not normalised (EINVAL)')
+    return _cond_wait(ex, st, args[0], args[1], _ts_ns(st, ts))
+
+@builtin('pthread_cond_signal')
+def b_cond_signal(ex, st, args, ins):
+    c = args[0]; ws = _waiters(st, c)
+    if not ws: return 0
+    # any one waiter may be released: split over the choice
+    k = len(st.inputs)
+    p = st.ghost.get('pick')
+    if p is not None and p[0] == id(ins) and p[1] == k:
+        st.ghost.pop('pick', None); idx = p[2]
+    else:
+        for i in range(len(ws) - 1, 0, -1):
+            sib = st.fork(); sib.ghost['pick'] = (id(ins), k, i); ex.push_state(sib)
+        idx = 0
+    st.inputs.append(('wakepick', idx))
+    _set_waiters(st, c, [x for j, x in enumerate(ws) if j != idx])
+    return 0
+@builtin('pthread_cond_broadcast')
+def b_cond_broadcast(ex, st, args, ins):
+    _set_waiters(st, args[0], ()); return 0
+
+# semaphores: the word at the address is the count
+@builtin('sem_init')
+def b_sem_init(ex, st, args, ins): st.mem.store(args[0], 4, args[2] & 0xffffffff); return 0
+@builtin('sem_destroy')
+def b_sem_destroy(ex, st, args, ins): return 0
+@builtin('sem_post')
+def b_sem_post(ex, st, args, ins):
+    st.mem.store(args[0], 4, st.mem.load(args[0], 4) + 1); return 0
+@builtin('sem_trywait')
+def b_sem_trywait(ex, st, args, ins):
+    v = st.mem.load(args[0], 4)
+    if v > 0: st.mem.store(args[0], 4, v - 1); return 0
+    st.mem.store(b_errno(ex, st, [], ins), 4, 11); return ops.mask(32)
+def _sem_wait(ex, st, s, deadline_ns):
+    th = st.threads[st.cur]; tid = th.tid
+    v = st.mem.load(s, 4)
+    if v > 0:
+        _wake_reason(st, tid)
+        st.mem.store(s, 4, v - 1); return 0
+    if deadline_ns is not None and _wake_reason(st, tid) == 'timeout':
+        st.ghost['clock_ns'] = max(_clock(st), deadline_ns)
+        st.mem.store(b_errno(ex, st, [], None), 4, 110); return ops.mask(32)
+    th.status = 'blocked'
+    timed = deadline_ns is not None
+    def w(ex_, st_, t_, s=s, timed=timed):
+        if st_.mem.load(s, 4) > 0: return True
+        return 'timeout' if timed else False
+    th.wait = w
+    raise Blocked()
+@builtin('sem_wait')
+def b_sem_wait(ex, st, args, ins): return _sem_wait(ex, st, args[0], None)
+@builtin('sem_timedwait')
+def b_sem_timedwait(ex, st, args, ins):
+    ts = args[1]; nsec = st.mem.load(ts + 8, 8)
+    if not isinstance(nsec, int) or nsec >= 1000000000: raise MemError('pthread', 'sem_timedwait: tv_nsec not normalised (EINVAL)')
+    return _sem_wait(ex, st, args[0], _ts_ns(st, ts))
+@builtin('sem_getvalue')
+def b_sem_getvalue(ex, st, args, ins): st.mem.store(args[1], 4, st.mem.load(args[0], 4)); return 0
+
+# threads
+@builtin('pthread_create')
+def b_pthread_create(ex, st, args, ins):
+    tp, attr, fn, arg = args
+    if not isinstance(fn, int): fn = ex.concretize(st, fn, 64, 'thread fn')
+    name = ex.fname_at.get(fn)
+    if name is None: raise MemError('bad-call', 'pthread_create with a non-function start routine')
+    th = ex.new_thread(st, name, [arg], 'thread:' + name[:40])
+    st.mem.store(tp, 8, th.tid + 1000)
+    return 0
+@builtin('pthread_join')
+def b_pthread_join(ex, st, args, ins):
+    h, retp = args
+    tid = h - 1000
+    if tid <= 0 or tid >= len(st.threads): raise MemError('pthread', 'pthread_join of an invalid thread handle')
+    t = st.threads[tid]
+    if t.status == 'done':
+        if retp: st.mem.store(retp, 8, t.result if t.result is not None else 0)
+        return 0
+    th = st.threads[st.cur]
+    th.status = 'blocked'
+    th.wait = lambda ex_, st_, t_, tid=tid: st_.threads[tid].status == 'done'
+    raise Blocked()
+@builtin('pthread_self')
+def b_pthread_self(ex, st, args, ins): return st.threads[st.cur].tid + 1000
+@builtin('pthread_detach', 'pthread_attr_init', 'pthread_attr_destroy', 'pthread_attr_setstacksize', 'pthread_setname_np', 'pthread_sigmask', 'pthread_cancel')
+def b_pthread_nop(ex, st, args, ins): return 0
+
+@builtin('vf_spawn')
+def vf_spawn(ex, st, args, ins):
+    fn, arg = args
+    name = ex.fname_at.get(fn)
+    if name is None: raise MemError('bad-call', 'vf_spawn of a non-function')
+    th = ex.new_thread(st, name, [arg], 'spawn:' + name[:40])
+    return th.tid
+@builtin('vf_join')
+def vf_join(ex, st, args, ins):
+    tid = args[0]
+    t = st.threads[tid]
+    if t.status == 'done': return t.result if t.result is not None else 0
+    th = st.threads[st.cur]; th.status = 'blocked'
+    th.wait = lambda ex_, st_, t_, tid=tid: st_.threads[tid].status == 'done'
+    raise Blocked()
+@builtin('vf_yield')
+def vf_yield(ex, st, args, ins): return 0
+@builtin('vf_clock_ns')
+def vf_clock_ns(ex, st, args, ins): return _clock(st)
+@builtin('vf_tid')
+def vf_tid(ex, st, args, ins): return st.threads[st.cur].tid
+
+SYNC_POINTS = {'pthread_mutex_lock', 'pthread_mutex_unlock', 'pthread_mutex_trylock', 'pthread_cond_wait', 'pthread_cond_timedwait',
+               'pthread_cond_signal', 'pthread_cond_broadcast', 'sem_wait', 'sem_post', 'sem_trywait', 'sem_timedwait',
+               'pthread_join', 'pthread_create', 'vf_yield', 'vf_join', 'usleep', 'sched_yield', 'nanosleep'}
